@@ -8,7 +8,7 @@ from . import coqbuild
 
 OCAML = os.path.join(C.VERIF, "harness", "ocaml")
 GEN = os.path.join(OCAML, "gen")
-RUNNERS = {"vecrun": ["vecmodel"], "setrun": ["setmodel"]}
+RUNNERS = {"vecrun": ["vecmodel"], "setrun": ["setmodel"], "swap2mrun": ["swap2model"]}
 
 
 def build_runner(name="vecrun"):
